@@ -586,3 +586,58 @@ func mask64(w int) uint64 {
 func (t *Term) Size() int { return len(t.SMT()) }
 
 var _ = bits.Len
+
+// Subst replaces variables by the constants in known and re-simplifies.
+func Subst(t *Term, known map[string]uint64) *Term {
+	switch t.Op {
+	case OpConst:
+		return t
+	case OpVar:
+		if v, ok := known[t.Name]; ok {
+			if t.W == 0 {
+				return Bool(v == 1)
+			}
+			return BV(t.W, v)
+		}
+		return t
+	}
+	changed := false
+	args := make([]*Term, len(t.Args))
+	for i, a := range t.Args {
+		args[i] = Subst(a, known)
+		if args[i] != a {
+			changed = true
+		}
+	}
+	if !changed {
+		return t
+	}
+	switch t.Op {
+	case OpNot:
+		return Not(args[0])
+	case OpAnd:
+		return And(args...)
+	case OpOr:
+		return Or(args...)
+	case OpEq:
+		return Eq(args[0], args[1])
+	case OpIte:
+		return Ite(args[0], args[1], args[2])
+	case OpNeg:
+		return Neg(args[0])
+	case OpBNot:
+		return BNot(args[0])
+	case OpZExt:
+		return ZExt(args[0], t.W)
+	case OpSExt:
+		return SExt(args[0], t.W)
+	case OpExtract:
+		return Extract(args[0], t.Lo, t.W)
+	case OpConcat:
+		return Concat(args[0], args[1])
+	case OpULt, OpULe, OpSLt, OpSLe:
+		return Cmp(t.Op, args[0], args[1])
+	default:
+		return Bin(t.Op, args[0], args[1])
+	}
+}
